@@ -11,3 +11,4 @@ import MhlModel.DirHash
 import MhlModel.Time
 import MhlModel.Updater
 import MhlModel.Crash
+import MhlModel.Xml
